@@ -26,22 +26,22 @@ VAL = r"tracked_struct::IngredientImpl::<C>::data_raw\(zalsa::Zalsa::table\(\$2\
 def c06_1(cx):
     """seed_active_query seeds the previous revisions' tracked_struct_ids into the active query (before the body: C01.7); seed_tracked_struct_ids -> IdentityMap::seed inserts entries inactive; execute passes the old memo (or last provisional memo) of the same key."""
     s = cx.fn(r"^function::execute::<impl function::memo::MemoHeader>::seed_active_query$")
-    c = cx.one(s.calls(r"ActiveQueryGuard::<'me>::seed_tracked_struct_ids$"), "seed_tracked_struct_ids call")
+    c = cx.one_call(s, r"ActiveQueryGuard::<'me>::seed_tracked_struct_ids$", "seed_tracked_struct_ids call")
     cx.must_call(s, r"ActiveQueryGuard::<'me>::seed_tracked_struct_ids$")
     cx.flow(s, cx.arg(c, 1), [r"^zalsa_local::QueryRevisions::tracked_struct_ids\(\$1\.revisions\)$"], [], "ids come from this header's revisions", c)
     im = cx.fn(r"^tracked_struct::IdentityMap::seed$")
-    ie = cx.one(im.calls(r"^tracked_struct::IdentityMap::insert_entry$"), "insert_entry in seed")
+    ie = cx.one_call(im, r"^tracked_struct::IdentityMap::insert_entry$", "insert_entry in seed")
     cx.flow(im, cx.arg(ie, 3), [r"^const:0$"], [r"^const:1$"], "seeded entries start inactive", ie)
     for name in ("insert", "mark_all_active"):
         b = cx.fn(r"^tracked_struct::IdentityMap::%s$" % name)
-        ie = cx.one(b.calls(r"^tracked_struct::IdentityMap::insert_entry$"), "insert_entry in " + name)
+        ie = cx.one_call(b, r"^tracked_struct::IdentityMap::insert_entry$", "insert_entry in " + name)
         cx.flow(b, cx.arg(ie, 3), [r"^const:1$"], [r"^const:0$"], "%s marks entries active" % name, ie)
     e = cx.fn(r"^function::execute::<impl function::IngredientImpl<C>>::execute$")
-    q = cx.one(e.calls(r"execute_query$"), "execute_query in execute")
+    q = cx.one_call(e, r"execute_query$", "execute_query in execute")
     cx.flow(e, cx.arg(q, 3), [r"^std::option::Option::<T>::map\(\$4, closure:"], [], "plain execution seeds from opt_old_memo", q)
     g = cx.fn(r"^zalsa_local::ActiveQueryGuard::<'me>::seed_tracked_struct_ids$")
     cb = cx.closure_passed_to(g, r"with_query_stack_unchecked_mut$")
-    sc = cx.one(cb.calls(r"^tracked_struct::IdentityMap::seed$"), "IdentityMap::seed call")
+    sc = cx.one_call(cb, r"^tracked_struct::IdentityMap::seed$", "IdentityMap::seed call")
     cx.flow(cb, cb.origin_op(sc.node()["args"][1], 0, {1: closure_origin(g, cb)}), [r"^\$2$"], [], "seeds the ids passed in", sc)
 
 
@@ -49,18 +49,18 @@ def c06_1(cx):
 def c06_2(cx):
     """new_struct: identity = (self.ingredient_index, hash(untracked_fields(fields)), disambiguate(identity_hash)); lookup by that identity; on a hit update() and keep/replace the id; on a miss allocate and store the id; Identity/IdentityHash equality is derived over all fields."""
     b = cx.fn(TS + r"new_struct$")
-    h = cx.one(b.calls(r"^hash::hash$"), "identity hash")
+    h = cx.one_call(b, r"^hash::hash$", "identity hash")
     cx.flow(b, cx.arg(h, 0), [r"^<C as tracked_struct::Configuration>::untracked_fields\(\$4\)$"], [], "hash covers the untracked (identity) fields of the new struct", h)
-    d = cx.one(b.calls(r"^zalsa_local::ZalsaLocal::disambiguate$"), "disambiguate call")
+    d = cx.one_call(b, r"^zalsa_local::ZalsaLocal::disambiguate$", "disambiguate call")
     cx.flow(b, cx.arg(d, 1), [r"^IdentityHash\{ingredient_index: \$1\.ingredient_index, hash: hash::hash\("], [], "disambiguation key = (ingredient, identity hash)", d)
-    lk = cx.one(b.calls(r"^zalsa_local::ZalsaLocal::tracked_struct_id$"), "identity lookup")
+    lk = cx.one_call(b, r"^zalsa_local::ZalsaLocal::tracked_struct_id$", "identity lookup")
     cx.flow(b, cx.arg(lk, 1), [r"^Identity\{ingredient_index: \$1\.ingredient_index, hash: hash::hash\(.*\), disambiguator: zalsa_local::ZalsaLocal::disambiguate\(.*\)\.1\}$",
                                r"^Identity\{ingredient_index: IdentityHash\{.*\}\.ingredient_index, hash: .*, disambiguator: .*disambiguate\(.*\)\.1\}$"], [r"disambiguator: const:"], "lookup identity = (ingredient, hash, disambiguator)", lk)
-    up = cx.one(b.calls(TS + r"update$"), "update call")
+    up = cx.one_call(b, TS + r"update$", "update call")
     cx.only_if(b, up, VariantIn(r"ZalsaLocal::tracked_struct_id\(", {"Some"}), "update only for an id found under this identity")
     cx.flow(b, cx.arg(up, 2), [r"ZalsaLocal::tracked_struct_id\(.*\)@Some\.0$"], [], "updates the slot found for this identity", up)
-    al = cx.one(b.calls(TS + r"allocate$"), "allocate call")
-    st = cx.sites(b.calls(r"^zalsa_local::ZalsaLocal::store_tracked_struct_id$"), 2, "store_tracked_struct_id calls")
+    al = cx.one_call(b, TS + r"allocate$", "allocate call")
+    st = cx.some_calls(b, r"^zalsa_local::ZalsaLocal::store_tracked_struct_id$", 2, "store_tracked_struct_id calls")
     after_alloc = [s for s in st if b.reaches(al, s)]
     cx.check(bool(after_alloc), "a freshly allocated id is recorded under the identity", al, key="store-after-allocate")
     for s in after_alloc:
@@ -98,8 +98,8 @@ def c06_3(cx):
     r = b.origin_local(0)
     cx.flow(b, r, [r"^phi\{.*tuple\{0: thin_vec::ThinVec::<T>::with_capacity\(.*\), 1: std::vec::Vec::<T>::new\(\)\}.*\}$|^phi\{tuple\{0: .*ThinVec.*new.*, 1: .*Vec.*new.*\} \| tuple\{0: .*with_capacity.*, 1: .*Vec::<T>::new\(\)\}\}$", r"tuple\{0: thin_vec::ThinVec::<T>::with_capacity"], [], "returns (active, stale) in that order")
     pc = cx.fn(r"^active_query::ActiveQuery::prepare_completion$")
-    dr = cx.one(pc.calls(r"^tracked_struct::IdentityMap::drain$"), "drain in prepare_completion")
-    ex = cx.one(pc.calls(r"^zalsa_local::QueryRevisionsExtra::new$"), "QueryRevisionsExtra::new")
+    dr = cx.one_call(pc, r"^tracked_struct::IdentityMap::drain$", "drain in prepare_completion")
+    ex = cx.one_call(pc, r"^zalsa_local::QueryRevisionsExtra::new$", "QueryRevisionsExtra::new")
     a = cx.args(ex)
     cx.check(any(re.search(r"drain\(.*\)\.0$", x) for x in a) and not any(re.search(r"drain\(.*\)\.1$", x) for x in a), "the ACTIVE list (drain().0) becomes the new revisions' tracked_struct_ids", ex, {"args": a}, key="active-into-extra")
     agg = cx.one(pc.aggregates(r"^active_query::QueryCompletion$"), "QueryCompletion aggregate")
@@ -111,19 +111,19 @@ def c06_3(cx):
 def c06_4(cx):
     """diff_outputs reports every stale tracked struct and every old output not recreated; report_stale_output -> remove_stale_output; tracked remove_stale_output -> delete_entity; delete_entity: updated_at.swap(None) (panics on None / current revision) then clear_memos then free_list.push(id); entries() filters updated_at.is_some()."""
     d = cx.fn(r"^function::diff_outputs::<impl function::memo::MemoHeader>::diff_outputs$")
-    reps = cx.sites(d.calls(r"^function::diff_outputs::report_stale_output$"), 2, "report_stale_output calls")
+    reps = cx.some_calls(d, r"^function::diff_outputs::report_stale_output$", 2, "report_stale_output calls")
     its = d.calls(r"^std::iter::IntoIterator::into_iter$")
     cx.check(any(re.search(r"^\$4\.stale_tracked_structs$", cx.arg(i, 0)) for i in its), "diff_outputs iterates completed_query.stale_tracked_structs", its[0] if its else None, key="iter-stale", body=d)
     r = cx.fn(r"^function::diff_outputs::report_stale_output$")
     cx.must_call(r, r"^key::DatabaseKeyIndex::remove_stale_output$")
-    c = cx.one(r.calls(r"^key::DatabaseKeyIndex::remove_stale_output$"), "remove_stale_output call")
+    c = cx.one_call(r, r"^key::DatabaseKeyIndex::remove_stale_output$", "remove_stale_output call")
     cx.flow(r, cx.arg(c, 0), [r"^\$3$"], [], "removes the reported output", c)
     t = cx.fn(r"^<tracked_struct::IngredientImpl<C> as ingredient::Ingredient>::remove_stale_output$")
     cx.must_call(t, TS + r"delete_entity$")
     de = cx.fn(TS + r"delete_entity$")
-    sw = cx.one(de.calls(r"^revision::OptionalAtomicRevision::swap$"), "updated_at.swap in delete_entity")
-    cm = cx.one(de.calls(TS + r"clear_memos$"), "clear_memos in delete_entity")
-    fp = cx.one(de.calls(r"SegQueue::<T>::push$"), "free_list.push in delete_entity")
+    sw = cx.one_call(de, r"^revision::OptionalAtomicRevision::swap$", "updated_at.swap in delete_entity")
+    cm = cx.one_call(de, TS + r"clear_memos$", "clear_memos in delete_entity")
+    fp = cx.one_call(de, r"SegQueue::<T>::push$", "free_list.push in delete_entity")
     cx.flow(de, cx.arg(sw, 0), [r"^" + VAL + r"\.updated_at$"], [], "swaps the lock word of the deleted id", sw)
     cx.flow(de, cx.arg(sw, 1), [r"^Option::None\{\}$"], [r"Option::Some"], "stores None (deleted / write-locked)", sw)
     cx.order(sw, cm, "lock word cleared before the memos are dropped")
@@ -147,13 +147,13 @@ def c06_6(cx):
     u = cx.fn(r"^function::maybe_changed_after::<impl function::memo::MemoHeader>::update_shallow$")
     hd = VariantIn(r"^\$4$", {"HigherDurability"})
     for rx in (r"MemoHeader::mark_as_verified$", r"MemoHeader::mark_outputs_as_verified$"):
-        c = cx.one(u.calls(rx), rx)
+        c = cx.one_call(u, rx, rx)
         cx.only_if(u, c, hd, "%s only for HigherDurability" % rx)
         cx.skipped_only_if(u, c, VariantIn(r"^\$4$", {"Verified", "No"}), "%s skipped only if not HigherDurability" % rx)
     m = cx.fn(r"^function::memo::MemoHeader::mark_outputs_as_verified$")
-    cx.sites(m.calls(r"^key::DatabaseKeyIndex::mark_validated_output$"), 1, "mark_validated_output in mark_outputs_as_verified")
+    cx.some_calls(m, r"^key::DatabaseKeyIndex::mark_validated_output$", 1, "mark_validated_output in mark_outputs_as_verified")
     mv = cx.fn(r"^function::memo::MemoHeader::mark_as_verified$")
-    st = cx.one(mv.calls(r"^revision::AtomicRevision::store$"), "verified_at.store")
+    st = cx.one_call(mv, r"^revision::AtomicRevision::store$", "verified_at.store")
     cx.flow(mv, cx.arg(st, 0), [r"^\$1\.verified_at$"], [], "stores into verified_at", st)
     cx.flow(mv, cx.arg(st, 1), [r"^zalsa::Zalsa::current_revision\(\$2\)$"], [r"^const:", r"Revision::start"], "verified_at := current revision", st)
     cx.must_call(mv, r"^revision::AtomicRevision::store$")
@@ -167,8 +167,8 @@ def c06_6(cx):
 def c07_1(cx):
     """tracked allocate: an id popped from the free list is re-initialised only under id.next_generation() (None => the slot is leaked, loop continues); tracked update: when identity fields changed, memos are cleared and the id becomes next_generation(); generation == u32::MAX refuses the update."""
     a = cx.fn(TS + r"allocate$")
-    pop = cx.one(a.calls(r"SegQueue::<T>::pop$"), "free_list.pop")
-    ng = cx.one(a.calls(r"^id::Id::next_generation$"), "next_generation in allocate")
+    pop = cx.one_call(a, r"SegQueue::<T>::pop$", "free_list.pop")
+    ng = cx.one_call(a, r"^id::Id::next_generation$", "next_generation in allocate")
     cx.flow(a, cx.arg(ng, 0), [r"SegQueue::<T>::pop\(\$1\.free_list\)@Some\.0$"], [], "generation bump applies to the popped id", ng)
     newid = r"id::Id::next_generation\(crossbeam_queue::SegQueue::<T>::pop\(\$1\.free_list\)@Some\.0\)@Some\.0"
     stores = [x for x in cx.stores(a) if re.search(r"data_raw\(", x[1])]
@@ -180,8 +180,8 @@ def c07_1(cx):
     ro = a.origin_local(0)
     cx.flow(a, ro, [r"^phi\{" + newid + r" \| zalsa_local::ZalsaLocal::allocate::<tracked_struct::Value<C>, .*\)\.0\}$", r"^phi\{.*next_generation\(.*\)@Some\.0 \| .*ZalsaLocal::allocate.*\.0\}$"], [r"phi\{crossbeam_queue::SegQueue::<T>::pop\(\$1\.free_list\)@Some\.0 \|"], "allocate returns the bumped id or a fresh one")
     u = cx.fn(TS + r"update$")
-    cm = cx.one(u.calls(TS + r"clear_memos$"), "clear_memos in update")
-    ng = cx.one(u.calls(r"^id::Id::next_generation$"), "next_generation in update")
+    cm = cx.one_call(u, TS + r"clear_memos$", "clear_memos in update")
+    ng = cx.one_call(u, r"^id::Id::next_generation$", "next_generation in update")
     changed = CallIs(r"^tracked_struct::Configuration::update_fields$", True, desc="identity fields changed")
     cx.only_if(u, cm, changed, "memos cleared when identity fields changed")
     cx.order(cm, ng, "memos of the old identity are cleared before the id moves to the next generation")
@@ -199,14 +199,14 @@ def c07_1(cx):
 def c07_3(cx):
     """update: asserts updated_at.is_some(); returns early if updated_at == Some(current_revision); the write-lock swap(None) happens only otherwise and must return the value just loaded; after the update swap(Some(current_revision)) must have returned None. acquire_read_lock never overwrites None."""
     u = cx.fn(TS + r"update$")
-    sws = cx.sites(u.calls(r"^revision::OptionalAtomicRevision::swap$"), 2, "updated_at swaps in update")
+    sws = cx.some_calls(u, r"^revision::OptionalAtomicRevision::swap$", 2, "updated_at swaps in update")
     lock = [s for s in sws if cx.arg(s, 1) == "Option::None{}"]
     unlock = [s for s in sws if re.match(r"^Option::Some\{0: zalsa::Zalsa::current_revision\(\$2\)\}$", cx.arg(s, 1))]
     cx.require(len(lock) == 1 and len(unlock) == 1, "expected one swap(None) and one swap(Some(current_revision)); got %r" % [cx.arg(s, 1) for s in sws])
     lw = r"OptionalAtomicRevision::load\(" + VAL + r"\.updated_at\)"
     cx.only_if(u, lock[0], Cmp(lw + "$", "!=", r"^Option::Some\{0: zalsa::Zalsa::current_revision\(\$2\)\}$"), "write lock taken only if the struct was not updated/read in the current revision")
     cx.only_if(u, lock[0], CallIs(r"^std::option::Option::<T>::is_some$", True, [lw + "$"]), "write lock taken only if the lock word is Some")
-    uf = cx.one(u.calls(r"^tracked_struct::Configuration::update_fields$"), "C::update_fields call")
+    uf = cx.one_call(u, r"^tracked_struct::Configuration::update_fields$", "C::update_fields call")
     cx.order(lock[0], uf, "fields are compared/replaced only under the write lock")
     cx.only_if(u, uf, Cmp(lw + "$", "==", r"OptionalAtomicRevision::swap\(.*Option::None\{\}\)$"), "the swap must have returned the value just loaded (no concurrent access)")
     cx.order(uf, unlock[0], "the lock is released after the update")
